@@ -739,6 +739,68 @@ def main():
             if hasattr(data_items_mod, cname):
                 delattr(data_items_mod, cname)
 
+    # ---- 4c. function classes: every class gets the shape of ITS OWN definition — catalogue classes that were already used,
+    # customised subclasses of them that override `_data_format` (the documented customisation path), subclasses of those, and
+    # unrelated custom classes defined one after the other
+    import secsgem.secs.functions as fmod0  # noqa: PLC0415
+    from secsgem.secs.functions.base import SecsStreamFunction  # noqa: PLC0415
+
+    def shape_of_instance(cls):
+        try:
+            inst = cls()
+            return "ok " + dump_obj(inst.data)
+        except Exception as exc:  # noqa: BLE001
+            return "err " + errname(exc)
+
+    def own_definition_tree():
+        for _ in range(50):
+            d = g.documented(rng.range(1, 3))
+            if d[0] == "L" and non_empty(d) and keys_distinct(d) and names_documented(d):
+                return d
+        return ("L", None, [("I", "DATAID"), ("I", "CEID")])
+
+    def judge(cls, d, text, how):
+        res.count(("fn-class", cls.__name__, text), nontrivial=True, sample={"op": "function class shape", "class": cls.__name__, "how": how, "text": text[:120]} if len(res.samples) < 11 else None)
+        res.bump("family", "function classes (own definition)")
+        got = shape_of_instance(cls)
+        want = "ok " + (doc_shape(d) if d is not None else "(none)")
+        ref = impl_parse(text) if text is not None else "ok (none)"
+        if not got.startswith("ok") or erase(got[3:]) != want[3:] or got != ref:
+            res.violate("c19-shape", "an instance of a function class does not have the shape of the class's own structure definition",
+                        {"class": cls.__name__, "how": how, "def": def_sexpr(d) if d is not None else None, "text": text, "kind": "function class"}, want, got)
+        try:
+            shown, direct = cls.get_format(), (vfunctions.get_format(text) if text is not None else "Header only")
+            if shown != direct:
+                res.violate("c19-shape", "get_format() of a function class is not the format of its own definition", {"class": cls.__name__, "how": how, "text": text}, direct, shown)
+        except Exception as exc:  # noqa: BLE001
+            res.violate("c19-shape", "get_format() of a function class raises", {"class": cls.__name__, "how": how, "text": text}, "text", errname(exc))
+
+    parents = [c for c in (getattr(fmod0, r["cls"], None) for r in facts["Catalogue"]["py"]) if c is not None]
+    for c in parents:                                      # every catalogue class is used (instantiated) first
+        shape_of_instance(c)
+    chosen = [rng.choice(parents) for _ in range(40 if big else 12)] + [fmod0.SecsS01F01, fmod0.SecsS01F03]
+    for i, parent in enumerate(chosen):
+        d1, d2 = own_definition_tree(), own_definition_tree()
+        t1, t2 = render_top(rng, d1, rng.choice([0, 1, 2])), render_top(rng, d2, rng.choice([0, 1, 2]))
+        sub = type(f"Custom{i}{parent.__name__}", (parent,), {"_data_format": t1})
+        judge(sub, d1, t1, f"subclass of the already used {parent.__name__} overriding _data_format")
+        subsub = type(f"Custom{i}b{parent.__name__}", (sub,), {"_data_format": t2})
+        judge(subsub, d2, t2, "subclass of that subclass overriding _data_format again")
+        judge(sub, d1, t1, "the first subclass again, after its own subclass was used")
+        if parent._data_format is not None:                # the parent keeps its own shape
+            dp = doc_read(parent._data_format)
+            if dp is not None and non_empty(dp) and keys_distinct(dp) and names_documented(dp):
+                judge(parent, dp, parent._data_format, "catalogue class after customised subclasses of it were used")
+            hdr = type(f"Custom{i}h{parent.__name__}", (parent,), {"_data_format": None})
+            judge(hdr, None, None, "subclass that turns the function into a header-only one")
+    for i in range(20 if big else 6):                      # unrelated custom classes, one after the other
+        d = own_definition_tree()
+        t = render_top(rng, d, rng.choice([0, 1, 2]))
+        direct = type(f"CustomS{64 + i}F1", (SecsStreamFunction,), {"_stream": 64 + i, "_function": 1, "_data_format": t})
+        judge(direct, d, t, "custom class derived directly from SecsStreamFunction")
+        judge(direct, d, t, "the same custom class instantiated a second time")
+    res.exhaustive_parts.append("all catalogue function classes instantiated, then customised subclasses / sub-subclasses / unrelated custom classes judged against their own definitions")
+
     # ---- 5. live classes: the data format each class really carries is the text Gen.Catalogue holds
     import secsgem.secs.functions as fmod  # noqa: PLC0415
     for row in facts["Catalogue"]["py"]:
